@@ -8,6 +8,7 @@ import (
 	"os"
 	"path/filepath"
 	"sort"
+	"strings"
 	"sync"
 
 	"github.com/vektah/gqlparser/v2/ast"
@@ -213,6 +214,12 @@ func DrawOverrides(t *rapid.T, cands []Candidate, max int, allowPanic bool) map[
 			}
 		} else {
 			kinds = []plan.Kind{plan.Error, plan.DirNull}
+			if strings.HasPrefix(cd.Key, "@") {
+				// a directive on the operation: it can only refuse (what it returns has to be the
+				// marshaller it was handed, and nothing recovers a panic above the fields)
+				out["D:"+cd.Key] = plan.Outcome{Kind: plan.Error, Msg: fmt.Sprintf("boom%d", i)}
+				continue
+			}
 		}
 		if allowPanic {
 			kinds = append(kinds, plan.Panic)
